@@ -604,6 +604,23 @@ impl TextResource {
             self.beginaligned_cursor(&offset.begin)?,
             self.beginaligned_cursor(&offset.end)?,
         );
+        if begin > self.textlen() {
+            return Err(StamError::CursorOutOfBounds(
+                Cursor::BeginAligned(begin),
+                "Begin cursor is out of bounds",
+            ));
+        } else if end > self.textlen() {
+            return Err(StamError::CursorOutOfBounds(
+                Cursor::BeginAligned(end),
+                "End cursor is out of bounds",
+            ));
+        } else if end < begin {
+            return Err(StamError::InvalidOffset(
+                offset.begin,
+                offset.end,
+                "End must be greater than begin",
+            ));
+        }
         let mut handle: Option<TextSelectionHandle> = None;
         if let Some(beginitem) = self.positionindex.0.get(&begin) {
             for (end2, gothandle) in beginitem.begin2end.iter() {
